@@ -278,7 +278,14 @@ def related_obligations(rep: Report, ctx: Ctx, prop):
     if pat:
         rx = re.compile(pat)
         roots |= {r['root'] for r in ctx.e1['roots'] if rx.search(r['root'])}
-    return e1_obligations(rep, ctx, lambda o: o['kind'] in ('P-assert', 'P-call', 'P-pre', 'R-inv', 'C-cast') and not roots.isdisjoint(o['roots']))
+    def sel(o):
+        if o['kind'] not in ('P-assert', 'P-call', 'P-pre', 'R-inv', 'C-cast'):
+            return False
+        if o['fails']:
+            # a site shared by many roots fails for this property only if it fails under one of *its* roots
+            return not roots.isdisjoint(o.get('fail_roots') or o['roots'])
+        return not roots.isdisjoint(o['roots'])
+    return e1_obligations(rep, ctx, sel)
 
 
 def contract_records(rep: Report, ctx: Ctx, prop):
